@@ -136,5 +136,18 @@ PROPS["C16"] = {
     "technique": "runtime monitoring: shadow-state monitor over bounded-exhaustive operation sequences; offline interval (linearizability-style) check of concurrent histories",
 }
 
+PROPS["C15"] = {
+    "level": "exploration",
+    "engines": [
+        {"bin": "hv", "args": ["c15"]},
+    ],
+    "min": {"quick": {"models": 450, "configs_loaded": 1300, "configs_with_includes": 200, "mutants": 3000, "syntax_errors_located": 1000},
+            "thorough": {"models": 13_000}},
+    "assumptions": [],
+    "level_text": "Configurations are rendered from a model in several layouts (incl. include splitting) and loaded by the real parser; the resulting Config is compared field by field with the model, and every single-fault mutant must be rejected, syntax faults with the file name and line the generator knows.",
+    "level_note": "Trusted: the model-to-expected-Config mapping in c15.rs (defaults table from the documentation).",
+    "technique": "runtime monitoring: model-based oracle over generated configurations, metamorphic layouts, single-fault mutation with located-error check",
+}
+
 # properties without a check, with the reason (kept current)
 NOT_CLAIMED = {}
